@@ -15,7 +15,7 @@ class C01(Prop):
     props_file = "Props/C01.v"
     coq_imports = kc.COQ_IMPORTS
     n_quick = 800
-    n_thorough = 20000
+    n_thorough = 12000
     shard = 80
     case_timeout = 30
     nontrivial_rule = ("random script families: 1-8 initial processes plus spawned children, delays from the dyadic lattice "
@@ -26,7 +26,9 @@ class C01(Prop):
                     "as instance attributes (no change in /repo); events named by creation index",
                     "times are exact: dyadic delays, Python numbers converted with fractions.Fraction; float rounding is outside the theorems",
                     "CPython generator semantics (send/throw/StopIteration) and heapq are modelled, not verified"]
-    assumptions = ["process bodies do not call env.run()/step() re-entrantly",
+    assumptions = ["theorems are about the model of the repaired kernel (fix: bd0bcc6 in onl/sim/core.py: the stop of run(until=event) "
+                   "is raised after the remaining callbacks of the event); the C01 statements do not depend on that choice",
+                   "process bodies do not call env.run()/step() re-entrantly",
                    "one Environment (no mixing of environments); Event.trigger (unused public method) is not modelled"]
     partial = []
 
